@@ -1,4 +1,4 @@
-CONSTANTS Variant = "std"  MaxSum = 6  MaxIns = 2  MaxPays = 4  MaxFee = 2
+CONSTANTS Variant = "std"  MaxSum = 5  MaxIns = 2  MaxPays = 4  MaxFee = 2
           ScaleKs = {12, 24}  ScaleRs = {0, 1, 2, 3, 4, 5, 7, 11, 23}
 SPECIFICATION Spec
 INVARIANTS Scale
